@@ -187,8 +187,10 @@ type GenOpts struct {
 	NoStruct       bool
 	NoMap          bool
 	TemplateNames  bool
-	StructPool     *StructPool // shared struct definitions (same name => same definition)
-	MaxAnonNest    int         // max directly nested anonymous tuples (0 = unlimited)
+	StructPool     *StructPool       // shared struct definitions (same name => same definition)
+	MaxAnonNest    int               // max directly nested anonymous tuples (0 = unlimited)
+	MinTuple       int               // minimum number of tuple members
+	BadName        func(string) bool // names to avoid (struct and field names)
 }
 
 // AllScalars are the leaf kinds of the grammar usable inside values.
@@ -258,7 +260,7 @@ func genType(rng *rand.Rand, o GenOpts, depth int, anon int) *Type {
 			if o.MaxAnonNest > 0 && anon >= o.MaxAnonNest {
 				continue
 			}
-			n := rng.Intn(o.Width + 1)
+			n := o.MinTuple + rng.Intn(o.Width+1-o.MinTuple)
 			m := make([]*Type, n)
 			for i := range m {
 				m[i] = genType(rng, o, depth-1, anon+1)
@@ -285,6 +287,9 @@ func genType(rng *rand.Rand, o GenOpts, depth int, anon int) *Type {
 				m[i] = genType(rng, o, depth-1, 0)
 				for {
 					f := GenIdent(rng, 6)
+					if o.BadName != nil && o.BadName(f) {
+						continue
+					}
 					if !used[strings.ToLower(f)] {
 						used[strings.ToLower(f)] = true
 						fields[i] = f
@@ -293,12 +298,22 @@ func genType(rng *rand.Rand, o GenOpts, depth int, anon int) *Type {
 				}
 			}
 			name := GenIdent(rng, 8)
+			for o.BadName != nil && o.BadName(name) {
+				name = GenIdent(rng, 8)
+			}
 			if o.TemplateNames && rng.Intn(4) == 0 {
 				name = name + "<" + GenIdent(rng, 6) + ">"
 			}
 			if o.StructPool != nil {
 				o.StructPool.n++
-				name = fmt.Sprintf("%s%d", GenIdent(rng, 4), o.StructPool.n)
+				base := GenIdent(rng, 4)
+				for o.BadName != nil && o.BadName(base) {
+					base = GenIdent(rng, 4)
+				}
+				name = fmt.Sprintf("%s%d", base, o.StructPool.n)
+				if o.TemplateNames && rng.Intn(4) == 0 {
+					name = fmt.Sprintf("%s%d<%s>", base, o.StructPool.n, GenIdent(rng, 5))
+				}
 				t := StructOf(name, fields, m...)
 				o.StructPool.defs[name] = t
 				return t
